@@ -1822,9 +1822,27 @@ class _Ops:
         if link:
             bad = [cname(e) for e in walk_elems(r) if not (kind_of(e) == "L" and id(e.params) in fwd)]
             if bad or generic_pred(r):
-                return StepResult("ok", "inverse-not-linked", [self.viol("C07", "inverse-not-linked", x, desc, {"members_not_linked": bad[:4], "predicts_itself": generic_pred(r)})])
+                det = {"members_not_linked": bad[:4], "predicts_itself": generic_pred(r)}
+                # the linked inverse was promised to read the forward transform's parameters: without the link it keeps a
+                # snapshot (C09) and does not stay an inverse (C07)
+                return StepResult("ok", "inverse-not-linked", [self.viol("C07", "inverse-not-linked", x, desc, det), self.viol("C09", "link-not-established", x, desc, det)])
         if isinstance(r, CompositeTransform):
-            y = self.add_with_members(hid, r, x.comp, "inverse", smooth=x.smooth, member_buf="unknown")
+            # update_buffers=True must hand out members whose buffers are those of the inverse; members of a forward
+            # transform without buffers have nothing stale to inherit
+            cached = [e.buf for e in self.elems(x) if not (family(e.obj) == "lin" and kind_of(e.obj) in ("P", "B"))]
+            only_vel_lin = all(family(e.obj) == "lin" or cname(e.obj) in VELOCITY for e in self.elems(x)) and not any(generic_pred(c) for c in [t] + list(self.composites_below(t)))
+            mbuf = "unknown"
+            if only_vel_lin and cached and all(b == "fresh" for b in cached) and ub:
+                mbuf = "fresh"
+            elif only_vel_lin and cached and all(b == "cleared" for b in cached) and all(cname(e.obj) in VELOCITY or kind_of(e.obj) in ("P", "B") for e in self.elems(x)):
+                mbuf = "cleared"
+            y = self.add_with_members(hid, r, x.comp, "inverse", smooth=x.smooth, member_buf=mbuf)
+            if mbuf != "unknown":
+                for e in self.elems(y):
+                    e.buf = mbuf
+                self.state(r, y.comp).buf = mbuf
+                self.fresh_changed = {id(y.obj)}
+                self.last_change[id(y.obj)] = "inverse(ub)" if ub else "inverse"
         else:
             vel = cname(t) in VELOCITY
             # update_buffers=True refreshes the inverse's displacement from the (current) velocity buffer; the
@@ -1838,7 +1856,7 @@ class _Ops:
         self.pairs.append(Pair(x.hid, y.hid, link, ub))
         self.hot = [y.hid, x.hid]
         out = StepResult("ok", "inverse")
-        if not isinstance(r, CompositeTransform) and y.buf in ("fresh", "cleared"):
+        if (not isinstance(r, CompositeTransform) and y.buf in ("fresh", "cleared")) or (isinstance(r, CompositeTransform) and mbuf != "unknown"):
             # the inverse must be usable as it is handed out: its dense displacement is that of the inverse map
             sub = self.op_disp({"h": y.hid, "which": "disp"})
             stale = [v for v in sub.violations if v.cls == "stale-obs"]
